@@ -47,7 +47,9 @@ pub fn run_main(p: Prop) {
         }
         i += 2;
     }
-    std::panic::set_hook(Box::new(|_| {}));
+    if std::env::var("VERIF_PANIC_VERBOSE").is_err() {
+        std::panic::set_hook(Box::new(|_| {}));
+    }
     let _ = prop;
     let thorough = tier == "thorough";
     // cases: corpus / replay file first, then generated
